@@ -30,11 +30,14 @@ sides (a differential test under the same flag schedule, so that a defect that
 hits original and copy alike is not blamed on pickling).
 """
 
+import bz2
 import collections
 import gc
+import gzip
 import io
 import pickle
 import sys
+import tempfile
 
 import egsim  # noqa: F401
 from egsim import classes as C
@@ -367,11 +370,42 @@ def measured_floor(shape_op, proto, api):
     return lo
 
 
+class _WriteOnly:
+    """The least a binary file has to be for a pickler: something with write()."""
+
+    def __init__(self):
+        self.parts = []
+
+    def write(self, data):
+        self.parts.append(bytes(data))
+        return len(data)
+
+
 def do_dump(root, proto, api):
+    """The bytes nrpickler produces, through dumps() or through dump() into some kind of binary file."""
     if api == "dump":
         f = io.BytesIO()
         nrpickler.dump(root, f, protocol=proto)
         return f.getvalue()
+    if api == "dump-gzip":
+        raw = io.BytesIO()
+        with gzip.GzipFile(fileobj=raw, mode="wb", mtime=0) as f:
+            nrpickler.dump(root, f, protocol=proto)
+        return gzip.decompress(raw.getvalue())
+    if api == "dump-bz2":
+        raw = io.BytesIO()
+        with bz2.BZ2File(raw, "wb") as f:
+            nrpickler.dump(root, f, protocol=proto)
+        return bz2.decompress(raw.getvalue())
+    if api == "dump-file":
+        with tempfile.TemporaryFile(mode="w+b") as f:
+            nrpickler.dump(root, f, protocol=proto)
+            f.seek(0)
+            return f.read()
+    if api == "dump-writeonly":
+        f = _WriteOnly()
+        nrpickler.dump(root, f, protocol=proto)
+        return b"".join(f.parts)
     return nrpickler.dumps(root, protocol=proto)
 
 
@@ -513,6 +547,9 @@ class C10(engine.Property):
         "root:link",
         "root:laws",
         "api:dump-to-file",
+        "api:dump-to-gzip",
+        "api:dump-to-bz2",
+        "api:dump-to-writeonly",
         "loader:dill",
         "loader:pickle",
         "warm-memo-pickled",
@@ -532,6 +569,7 @@ class C10(engine.Property):
         "law-set-made-a-universe-member",
         "attribute-holding-an-accessor-result",
         "container-shared-between-attributes",
+        "warm-memo-then-mutation-then-same-read-on-the-copy",
     ]
 
     # -- configuration --------------------------------------------------------------------
@@ -584,7 +622,7 @@ class C10(engine.Property):
         cfg["cache3"] = rng.choice(["off", "on", "toggling"])
         cfg["pickle"] = {
             "proto": rng.randint(2 if "SlottedVertex" in cfg["vertex_classes"] else 0, 5),
-            "api": rng.choice(["dumps", "dumps", "dump"]),
+            "api": rng.choice(["dumps", "dumps", "dumps", "dump", "dump", "dump-gzip", "dump-bz2", "dump-file", "dump-writeonly"]),
             "loader": rng.choice(["pickle", "dill"]),
             "mode": rng.choice(["inproc"] * 12 + ["zygote"] * 6 + ["exec"]),
             "root_kind": rng.choice(["box", "box", "v", "u", "e", "L", "any"]),
@@ -767,6 +805,25 @@ class C10(engine.Property):
             if not getattr(st, "battery_done", False):
                 st.battery_done = True
                 st.pending = self._battery(rng, cfg, st)
+                warm = getattr(st, "warm_reads_c", [])
+                if warm and rng.random() < 0.6:
+                    # the memo came along in the pickle: change the copy next to
+                    # a vertex whose answer is in it, then ask the same again
+                    # with caching on
+                    r = rng.choice(warm)
+                    x = r.get("v") or r.get("s")
+                    vs = view.vertices()
+                    links = [l for l in view.links_of(x) if view.snap.get(l, {}).get("k") == "e"] if x in view.snap else []
+                    pre = []
+                    if links and rng.random() < 0.5:
+                        pre.append({"op": "unlink_from", "e": rng.choice(links), "v": x})
+                    elif vs and x in view.snap:
+                        pre.append({"op": "mk_edge", "new": st.namer.new("e"), "cls": "DirectedEdge", "a": x, "b": rng.choice(vs)})
+                    if pre:
+                        st.stats["probe:warm-memo-then-mutation-then-same-read-on-the-copy"] += 1
+                        if rng.random() < 0.5:
+                            pre.insert(0, {"op": "flag", "value": rng.random() < 0.5})
+                        st.pending = pre + [{"op": "flag", "value": True}, dict(r)] + st.pending
         if st.pending:
             return st.pending.pop(0)
         if cfg["cache3"] == "toggling" and rng.random() < 0.15:
@@ -860,6 +917,8 @@ class C10(engine.Property):
                     st.focus.append(tgt)
                 if st.flag:
                     st.warmed = True
+                    if k in ("neighbors", "trav", "search") and "exc" not in out:
+                        st.warm_reads = (getattr(st, "warm_reads", []) + [dict(op)])[-4:]
             else:
                 st.refresh()
                 if k == "set_attr" and "ref" in engine.jdump(op["val"]):
@@ -908,8 +967,10 @@ class C10(engine.Property):
             ] += 1
         s["op:pickle"] += 1
         s["probe:loader:" + op["loader"]] += 1
-        if op["api"] == "dump":
+        if op["api"].startswith("dump-") or op["api"] == "dump":
             s["probe:api:dump-to-file"] += 1
+        if op["api"].startswith("dump-"):
+            s["probe:api:dump-to-" + op["api"][5:]] += 1
         if getattr(st, "warmed", False):
             s["probe:warm-memo-pickled"] += 1
         deep = st.cfg["deep"]
@@ -954,6 +1015,21 @@ class C10(engine.Property):
         st.canon0 = canon0
         st.canon0_digest = digest(canon0)
         st.orig_ids = {id(o) for o in wc.objs.values()}
+        # reads whose answers sit in the memos that were just pickled, in the
+        # copy's numbering
+        st.warm_reads_c = []
+        for r in getattr(st, "warm_reads", []):
+            r2 = dict(r)
+            ok = True
+            for key in ("v", "s", "u"):
+                if r2.get(key) is not None:
+                    o = w0.objs.get(r2[key])
+                    if o is None or not wc.known(o):
+                        ok = False
+                        break
+                    r2[key] = wc.lab(o)
+            if ok:
+                st.warm_reads_c.append(r2)
         st.ex = PExec(wc)
         st.ex.shape_objs = None
         st.nobjects = len(canon0)
